@@ -26,6 +26,8 @@ type Hooks struct {
 	// Vanished: the injected failure is "this name does not exist (any more)" -- a typed PathError matching ErrNotExist,
 	// what a primitive reports when another process removed the entry in between -- instead of the opaque ErrInjected.
 	Vanished bool
+	// Sticky: every call from the FailAt-th on fails (what broke stays broken), not just that one.
+	Sticky bool
 	// FiredName is the path the failed primitive was called with ("" for calls on files opened before names were tracked).
 	FiredName string
 }
@@ -37,9 +39,11 @@ func (h *Hooks) tickN(what, name string) error {
 	defer h.mu.Unlock()
 	h.Calls++
 	h.Log = append(h.Log, what)
-	if h.FailAt > 0 && h.Calls == h.FailAt {
-		h.Fired = what
-		h.FiredName = name
+	if h.FailAt > 0 && (h.Calls == h.FailAt || (h.Sticky && h.Calls > h.FailAt)) {
+		if h.Fired == "" {
+			h.Fired = what
+			h.FiredName = name
+		}
 		if h.Vanished {
 			return &hackpadfs.PathError{Op: strings.ToLower(strings.TrimPrefix(what, "File.")), Path: name, Err: hackpadfs.ErrNotExist}
 		}
